@@ -137,3 +137,13 @@ CHECKS["C11"] = dict(
         "declared frame sizes above 2^26 are exercised in the thorough tier only",
     ],
 )
+
+CHECKS["C20"] = dict(
+    parts=[dict(pkg="net", run="^TestC20_")], level="exploration",
+    quick=dict(shards=8, checks=60, timeout=900),
+    thorough=dict(shards=16, checks=1500, timeout=3000),
+    assumptions=[
+        "listener counts are read after quiescence (twice, 100 ms apart); 'cancelled after the channel ends' uses a 10 s bound",
+        "an unsubscription that overlaps the close may legitimately see 0 or 1 calls",
+    ],
+)
